@@ -97,6 +97,8 @@ def get_sparse_operator(operator: PauliRepresentation, n_qubits: Optional[int] =
         row_list.append(row)
 
     # Create sparse operator.
+    if not values_list:
+        return scipy.sparse.csc_matrix((n_hilbert, n_hilbert), dtype=complex)
     values_list = numpy.concatenate(values_list)
     row_list = numpy.concatenate(row_list)
     column_list = numpy.concatenate(column_list)
